@@ -132,8 +132,17 @@ def scripts(rng, n, maxseg=6):
                 segs.append((rng.choice(["x", ") a", "a b c", "1 + 2", " ".join(ts[1:]) or "y", ", " + " ".join(ts[1:4])]), "no_keyword"))
             else:
                 segs.append((s, "valid"))
+        if rng.random() < 0.2:
+            segs.append((rng.choice(TRUNC_TAILS), "truncated_tail"))
         out.append(segs)
     return out
+
+
+# statements cut off at spots where a sub-parser steps over the end of input without looking (only as the LAST segment:
+# nothing follows the cut)
+TRUNC_TAILS = ["SHOW CREATE", "SELECT f(a, INTERVAL 30", "SELECT (INTERVAL 3", "SELECT CAST(a AS", "SELECT a FROM t WHERE b IN (", "INSERT INTO t VALUES (",
+               "SELECT CASE WHEN", "SELECT a FROM t ORDER BY", "SELECT a::", "SELECT a[", "CREATE TABLE t (a INT REFERENCES u (id) ON", "SELECT EXTRACT(YEAR FROM",
+               "SELECT a FROM t WHERE a BETWEEN 1 AND", "MERGE INTO t USING s ON t.id = s.id WHEN", "SHOW", "DESCRIBE", "EXPLAIN", "ALTER TABLE t ALTER COLUMN"]
 
 
 def join(rng, segs):
